@@ -605,6 +605,36 @@ def rule_E(run, prog):
                        loc="%s:%d" % (prog.cls((SD if nme == "SpectralDensity" else CF) + nme).module.relpath,
                                       prog.cls((SD if nme == "SpectralDensity" else CF) + nme).node.lineno),
                        sample={"class": nme, "keys": sorted(keys)})
+    # every contribution to self.lamb made by a constructor itself comes out of a dictionary the constructor filled with
+    # converted values: `self.lamb += D["reorg"]` with D bound to {} and filled through convert_energy_2_internal_u in the
+    # same loop - not out of the dictionaries as given (a list comprehension over the parameter, the parameter itself)
+    for cls_q, cname in ((CF + "CorrelationFunction", "CorrelationFunction"), (SD + "SpectralDensity", "SpectralDensity")):
+        init_ = prog.cls(cls_q).methods["__init__"]
+        fparams = {a.arg for a in init_.node.args.args}
+        raw_records = [st for st in walk_no_nested(init_.node) if isinstance(st, ast.Assign) and norm(st.targets[0]) == "self.params"
+                       and isinstance(st.value, (ast.ListComp, ast.Name, ast.Call)) and any(
+                           isinstance(x, ast.Name) and x.id in fparams for x in ast.walk(st.value))]
+        for st in walk_no_nested(init_.node):
+            if isinstance(st, ast.AugAssign) and norm(st.target) == "self.lamb" and isinstance(st.value, ast.Subscript):
+                d = st.value.value
+                ok = False
+                if isinstance(d, ast.Name):
+                    fills = [x for x in walk_no_nested(init_.node) if isinstance(x, ast.Assign) and isinstance(x.targets[0], ast.Subscript)
+                             and norm(x.targets[0].value) == d.id and isinstance(x.value, ast.Call)
+                             and (call_name(x.value) or "").endswith("2_internal_u")]
+                    fresh_d = [x for x in walk_no_nested(init_.node) if isinstance(x, ast.Assign) and norm(x.targets[0]) == d.id
+                               and isinstance(x.value, ast.Dict) and not x.value.keys]
+                    ok = bool(fills) and bool(fresh_d)
+                    if not ok:
+                        # a loop variable over self.params: admissible when the record was never bound to the caller's own
+                        lp = [x for x in walk_no_nested(init_.node) if isinstance(x, ast.For) and isinstance(x.target, ast.Name)
+                              and x.target.id == d.id and norm(x.iter) == "self.params"]
+                        ok = bool(lp) and not raw_records
+                run.obligation(rid, "%s.__init__" % cname, ok, key="units:ctor-lamb-source:" + norm(st)[:40],
+                               message="the constructor adds %s to the reorganisation energy, which is kept in internal units; the "
+                                       "dictionary it reads was not filled with converted values (it holds the entries as the caller "
+                                       "gave them): created inside energy_units the object reports a reorganisation energy off by the "
+                                       "conversion factor" % norm(st.value), loc=init_.loc(st))
     for cls_q, cname in ((CF + "CorrelationFunction", "CorrelationFunction"), (SD + "SpectralDensity", "SpectralDensity")):
         cls = prog.cls(cls_q)
         ekeys = unitflow.energy_keys(prog, cls)
